@@ -681,6 +681,10 @@ pub const SHAPES: &[&str] = &[
     "a:pk(@K)",
     "or_c(pk(@K),v:pk(@K))",
     "pk_h(@K)",
+    // an uncompressed key behind a key hash (not allowed in segwit / tapscript: refuse, or get it right)
+    "pkh(@U)",
+    "or_d(pk(@K),pkh(@U))",
+    "and_v(v:pk(@K),pk_h(@U))",
     // one arm / one threshold child mixes lock units: the fragment as a whole fails the lift check
     // while its other paths are ordinary spending paths
     "or_i(and_v(v:@A,and_v(v:@AT,pk(@K))),pk(@K))",
